@@ -117,3 +117,18 @@ Proof.
     cbn [tod_of_instant]. destruct (Z.leb_spec year0 (year0 + s)); [|lia].
     destruct (Z.ltb_spec (year0 + s) (year0 + 86400)); [|lia]. cbn [andb]. f_equal. f_equal. lia.
 Qed.
+
+(* ---------- floats *)
+Section FloatFacts.
+  Variable F : Type.
+  Variable client_format server_format : F -> list N.
+  Variable parse_float : list N -> option F.
+  Variable sqlite_real : F -> F.
+  Variable storable : F -> Prop.
+  Hypothesis client_law : forall f, parse_float (client_format f) = Some f.
+  Hypothesis server_law : forall f, parse_float (server_format f) = Some f.
+  Hypothesis real_exact : forall f, storable f -> sqlite_real f = f.
+
+  Lemma float_roundtrip_ok f : storable f -> float_roundtrip F client_format server_format parse_float sqlite_real f = Some f.
+  Proof. intros H. unfold float_roundtrip. rewrite client_law, (real_exact f H). apply server_law. Qed.
+End FloatFacts.
